@@ -487,6 +487,14 @@ func (env *specEnv) selectField(x Value, name string) Value {
 		}
 		i := findField(st, name)
 		if i < 0 {
+			if fp := fieldPath(st, name, 0); fp != nil {
+				a := env.ex.addrOf(x)
+				if a.Kind != "cell" {
+					na := *a
+					na.Path = append(append([]int{}, a.Path...), fp...)
+					return env.ex.load(env.st, &na)
+				}
+			}
 			// promoted field through embedded struct
 			for j := 0; j < st.NumFields(); j++ {
 				if st.Field(j).Embedded() {
@@ -706,6 +714,10 @@ func (env *specEnv) evalCall(t *ast.CallExpr) Value {
 			k := env.toType(env.eval(t.Args[0]), mt.Key())
 			cls := env.ex.visitedClass(rg)
 			return boolV(env.ex.heapOf(env.st, cls).Read(k.C))
+		case "disjoint":
+			// disjoint(a, b): the two slices do not share a backing array
+			a, b := env.eval(t.Args[0]), env.eval(t.Args[1])
+			return boolV(Or(Not(Eq(a.C[0], b.C[0])), Eq(a.C[0], IntC(0))))
 		case "isnil":
 			x := env.eval(t.Args[0])
 			return boolV(Eq(x.C[0], IntC(0)))
@@ -891,6 +903,7 @@ func (env *specEnv) callGo(fn *ssa.Function, args []Value) Value {
 	}
 	sub := *ex
 	sub.safety = false
+	sub.inSpec = true
 	r := ex.root()
 	nAss := len(r.assumes)
 	nObl := len(r.obls)
@@ -1151,13 +1164,13 @@ func (env *specEnv) locOf(e ast.Expr) []*locRef {
 			if !ok {
 				env.fail("bad location %s", exprString(e))
 			}
-			i := findField(st, t.Sel.Name)
-			if i < 0 {
+			fp := fieldPath(st, t.Sel.Name, 0)
+			if fp == nil {
 				env.fail("no field %s in %s", t.Sel.Name, typeKey(p.Elem()))
 			}
 			a := ex.addrOf(x)
 			na := *a
-			na.Path = append(append([]int{}, a.Path...), i)
+			na.Path = append(append([]int{}, a.Path...), fp...)
 			return []*locRef{env.addrLoc(&na)}
 		}
 		// field of an element location: s[i].f
@@ -1362,4 +1375,27 @@ func (ex *executor) assignClassesFor(c *Contract, names []string, ptypes []types
 		}
 	}()
 	return out
+}
+
+// fieldPath finds field `name` in struct type st, looking through embedded structs held by
+// value; it returns the index path.
+func fieldPath(st *types.Struct, name string, depth int) []int {
+	if i := findField(st, name); i >= 0 {
+		return []int{i}
+	}
+	if depth > 4 {
+		return nil
+	}
+	for j := 0; j < st.NumFields(); j++ {
+		f := st.Field(j)
+		if !f.Embedded() {
+			continue
+		}
+		if inner, ok := f.Type().Underlying().(*types.Struct); ok {
+			if p := fieldPath(inner, name, depth+1); p != nil {
+				return append([]int{j}, p...)
+			}
+		}
+	}
+	return nil
 }
